@@ -67,6 +67,22 @@ func anchors(r *gen.Rand, v *spec.Version, k int) []string {
 	return out[:k]
 }
 
+// explicitCopy writes every Modified metric of a that is not defined as an explicit copy of the (same-named) value
+// of the base metric it overrides.
+func explicitCopy(v *spec.Version, a spec.Assign) {
+	for m, me := range v.Metrics {
+		if me.BaseOf < 0 || a[m] != 0 {
+			continue
+		}
+		want := v.Metrics[me.BaseOf].Values[a[me.BaseOf]]
+		for vi, val := range me.Values {
+			if val == want {
+				a[m] = uint8(vi)
+			}
+		}
+	}
+}
+
 // neighbourhood enumerates the complete edit-distance-1 neighbourhood of s
 // over gen.Alphabet, plus all proper prefixes and suffixes.
 func neighbourhood(s string, f func(t, op string)) {
@@ -186,6 +202,22 @@ func RunStream(c *Ctx, cfg StreamCfg, handle func(w *Worker, sc StrCase, res *[s
 				}
 				s := v.Canonical(a)
 				do(w, StrCase{s, vi, "base-complete"})
+				// the same base vector with every Modified metric written out as an explicit COPY of its base metric
+				// (the representation a "redundant environmental group" normalisation would touch), alone and with one
+				// seeded temporal / requirement metric defined
+				if v.ID != spec.V20 {
+					b := a.Clone()
+					explicitCopy(v, b)
+					do(w, StrCase{v.Canonical(b), vi, "base-complete-explicit-copy"})
+					for tries := 0; tries < 2; tries++ {
+						m := w.R.Intn(v.N())
+						if me := v.Metrics[m]; !me.Mandatory && me.BaseOf < 0 && me.Group != spec.GSupp {
+							b[m] = uint8(1 + w.R.Intn(len(me.Values)-1))
+							do(w, StrCase{v.Canonical(b), vi, "base-complete-explicit-copy"})
+							break
+						}
+					}
+				}
 				if v.ID == spec.V30 || v.ID == spec.V31 {
 					other := spec.Versions[spec.V30+spec.V31-v.ID]
 					do(w, StrCase{other.Header + s[len(v.Header):], vi, "base-complete-sibling-header"})
